@@ -26,7 +26,6 @@ demo_with=$(cd $pkgdir && timeout 900 go test $RACE -vet=off -count=1 -run "^($t
 git checkout -- . 2>/dev/null
 demo_without=$(cd $pkgdir && timeout 900 go test $RACE -vet=off -count=1 -run "^($tests)\$" . 2>&1 | tail -1)
 rm -f $pkgdir/zz_seed_demo_test.go
-cd /; git -C /repo worktree remove --force $WT
 echo "[$ID/$V] apply=$res_apply"
 echo "  suite with change:   $suite"
 echo "  demo with change:    $demo_with"
@@ -34,13 +33,17 @@ echo "  demo without change: $demo_without"
 caught=""
 detail=""
 if [ $res_apply = ok ]; then
+  # the checks run against the scratch worktree with the change applied (VERIF_REPO); /repo is untouched
+  git apply $PATCH 2>/dev/null || patch -p1 --fuzz=3 < $PATCH >/dev/null 2>&1
+  rm -f *.orig *.rej internal/fp/*.orig internal/fp/*.rej
   for c in "$@"; do
-    out=$(/verif/tools/seedrun.sh $PATCH $c 2>&1)
-    if echo "$out" | grep -q "== $c rc=1"; then caught="$caught $c"; detail="$detail$(echo "$out" | grep -A3 '^VIOLATION' | head -4 | cut -c1-240)
+    out=$(VERIF_REPO=$WT VERIF_EVIDENCE_DIR=$WT.ev VERIF_REPLAYS_DIR=$WT.rp /verif/check $c ${TIER:-quick} 2>&1); rc=$?
+    if [ $rc -eq 1 ]; then caught="$caught $c"; detail="$detail$(echo "$out" | grep -A3 '^VIOLATION' | head -4 | cut -c1-240)
 "; fi
-    echo "  check $c: $(echo "$out" | grep "== $c" )"
+    echo "  check $c: rc=$rc $(echo "$out" | grep -c '^VIOLATION') violation lines"
   done
 fi
+cd /; git -C /repo worktree remove --force $WT; rm -rf $WT.ev $WT.rp
 D=/verif/seeded/$ID$DV; mkdir -p $D
 cp $PATCH $D/patch.diff; cp $demo $D/demo_test.go; cp $SRC/notes.md $D/notes.md 2>/dev/null
 NOTES_FILE=$SRC/notes.md python3 - "$ID" "$DV" "$res_apply" "$suite" "$demo_with" "$demo_without" "$caught" "$detail" "$*" <<'PY'
